@@ -214,7 +214,7 @@ def _run_ext(cmd, text, timeout_s):
     return "noanswer"
 
 
-def cross_check(solver, expect, timeout_s=30, which=("z3-4.8.12", "cvc5")):
+def cross_check(solver, expect, timeout_s=30, which=("cvc5", "z3-4.8.12"), first_only=True):
     """Re-decide the query of `solver` (a z3.Solver already holding the assertions) with external binaries
     on the exported SMT-LIB2 text.  Returns dict name->answer; raises Inconclusive on sat/unsat disagreement."""
     text = solver.to_smt2()
@@ -231,6 +231,8 @@ def cross_check(solver, expect, timeout_s=30, which=("z3-4.8.12", "cvc5")):
         if r in ("sat", "unsat") and r != expect:
             STATS.cross["disagree"] += 1
             raise Inconclusive("solver disagreement: z3py says %s, %s says %s" % (expect, w, r))
+        if first_only and r == expect:
+            break
     if any(r == expect for r in res.values()):
         STATS.cross["confirmed"] += 1
     else:
